@@ -990,6 +990,16 @@ fn explore(tier: Tier) -> Explored {
                 }
             }
         }
+        // the host sleeps (no poll) and then receives any seed frame: every timer, cache entry,
+        // lease and reassembly slot is met at an instant far beyond its deadline by a FRAME,
+        // not by an idle poll; also with the same frame before the sleep (state it created is
+        // then 2^30 .. 2^40 ms old)
+        for sd in &base.seeds {
+            for j in JUMPS {
+                scripts.push(vec![Ev::Jump(j), Ev::Frame(sd.frame.clone())]);
+                scripts.push(vec![Ev::Frame(sd.frame.clone()), Ev::Jump(j), Ev::Frame(sd.frame.clone())]);
+            }
+        }
         st.scripts = scripts.len() as u64;
         let results: Vec<Result<Option<Viol3>, String>> = scripts
             .par_iter()
@@ -1029,7 +1039,7 @@ fn explore(tier: Tier) -> Explored {
 
 pub fn run(tier: Tier) -> i32 {
     let mut rep = Report::new("C03", tier);
-    rep.assumptions.push("bounds: single-frame pass = every seed of the catalogue, every truncation, every single byte of the first 96 bytes (+ DHCP option area, NDISC/DNS message tails, whole 802.15.4 frames) set to the boundary set {0,1,7,8,0x0f,0x28,0x2f,0x3f,0x40,0x7f,0x80,0xf0,0xff,orig^1} (quick) or to all 256 values (thorough), each raw and with all locatable checksums recomputed; thorough adds every pair of positions in the first 40 bytes x every pair of values from {0,1,7,8,0x0f,0x3f,0x40,0x7f,0x80,0xf0,0xff} (checksums recomputed) and all byte strings of length <= 2 (quick: first byte from the boundary set); sequences = BFS to depth 2 (quick) / 3 (thorough) over one representative frame per distinct observable effect (reply classes x changed components) + time advances {0, 1 s, 61 s}; thorough additionally depth 2 over one representative per (effect, seed); lone-fragment seeds and the TCP sequence-space edge seeds (handshake segments placing RCV.NXT at 2^31-0x100, 2^31-0x20, 2^31-1, 2^31 and the same below 2^32, with their follow-up segments) are pinned into the alphabets, every handshake x follow-up x follow-up triple, and every handshake (or, in the variant C worlds, the application's close()) followed by a silence of 61 / 62 / 63 / 64 s and a late segment, or by a clock jump WITHOUT a poll of 2^30, 2^31-1, 2^31, 2^32-1, 2^32, 2^33 or 2^40 ms and a late segment, is run as a scripted sequence; ICMPv4/ICMPv6 error messages are seeded with their quotation cut to every length (outer lengths and checksums consistent); BFS levels are cut by a wall-clock budget only with exhaustive=false reported".into());
+    rep.assumptions.push("bounds: single-frame pass = every seed of the catalogue, every truncation, every single byte of the first 96 bytes (+ DHCP option area, NDISC/DNS message tails, whole 802.15.4 frames) set to the boundary set {0,1,7,8,0x0f,0x28,0x2f,0x3f,0x40,0x7f,0x80,0xf0,0xff,orig^1} (quick) or to all 256 values (thorough), each raw and with all locatable checksums recomputed; thorough adds every pair of positions in the first 40 bytes x every pair of values from {0,1,7,8,0x0f,0x3f,0x40,0x7f,0x80,0xf0,0xff} (checksums recomputed) and all byte strings of length <= 2 (quick: first byte from the boundary set); sequences = BFS to depth 2 (quick) / 3 (thorough) over one representative frame per distinct observable effect (reply classes x changed components) + time advances {0, 1 s, 61 s}; thorough additionally depth 2 over one representative per (effect, seed); lone-fragment seeds and the TCP sequence-space edge seeds (handshake segments placing RCV.NXT at 2^31-0x100, 2^31-0x20, 2^31-1, 2^31 and the same below 2^32, with their follow-up segments) are pinned into the alphabets, every handshake x follow-up x follow-up triple, and every handshake (or, in the variant C worlds, the application's close()) followed by a silence of 61 / 62 / 63 / 64 s and a late segment, or by a clock jump WITHOUT a poll of 2^30, 2^31-1, 2^31, 2^32-1, 2^32, 2^33 or 2^40 ms and a late segment, is run as a scripted sequence; every seed frame is also run after such a clock jump, alone and preceded by itself before the jump; ICMPv4/ICMPv6 error messages are seeded with their quotation cut to every length (outer lengths and checksums consistent); BFS levels are cut by a wall-clock budget only with exhaustive=false reported".into());
     rep.assumptions.push("every injected frame meets a FRESH world in the base state and is followed by the probe; pair mutants and 2-byte raw frames get oracle (1)+(2) only (they are not fingerprinted, so they do not count in 'changed state')".into());
     rep.assumptions.push("the application model reads and discards received data after every poll and applies DHCP configuration events (IPv4 address, default route) like examples/dhcp_client.rs; trusted: harness frame builders, independent reply classifier".into());
     rep.assumptions.push("the 802.15.4 worlds used for frame exploration have no joined multicast group (joining one makes the very first poll panic before any frame is received: recorded under notes_outside_C03, not as a violation) and no IPv4; overflow-checks are ON in this profile, so arithmetic overflow on attacker-controlled lengths is observed as a panic".into());
